@@ -70,7 +70,11 @@ func (w *World) orderSites(extraTainted map[string]bool) []orderSite {
 			if c, ok := n.(*ast.CallExpr); ok && len(c.Args) > 0 {
 				cn := calleeOfCall(info, c)
 				if strings.HasPrefix(cn, "sort.") || strings.HasPrefix(cn, "slices.Sort") {
-					sorted[exprString(c.Args[0])] = append(sorted[exprString(c.Args[0])], c.Pos())
+					// a sort establishes an order only if its key is a function of the elements'
+					// content: positions in a token.FileSet (load order) and addresses are not
+					if !unstableSortKey(info, c) {
+						sorted[exprString(c.Args[0])] = append(sorted[exprString(c.Args[0])], c.Pos())
+					}
 				}
 			}
 			return true
@@ -267,4 +271,29 @@ func classifyEffects(eff map[string]bool, sortedLater func(v string) bool) strin
 		}
 	}
 	return "sorted:" + strings.Join(appended, ",")
+}
+
+// unstableSortKey: the comparator of a sort call reads a value whose order depends on
+// the run (token.Pos: assigned in load order; uintptr/unsafe.Pointer; %p formatting).
+func unstableSortKey(info *types.Info, c *ast.CallExpr) bool {
+	bad := false
+	for _, a := range c.Args[1:] {
+		ast.Inspect(a, func(n ast.Node) bool {
+			e, ok := n.(ast.Expr)
+			if !ok {
+				return true
+			}
+			if t := info.TypeOf(e); t != nil {
+				switch t.String() {
+				case "go/token.Pos", "uintptr", "unsafe.Pointer":
+					bad = true
+				}
+			}
+			if bl, ok := n.(*ast.BasicLit); ok && strings.Contains(bl.Value, "%p") {
+				bad = true
+			}
+			return true
+		})
+	}
+	return bad
 }
